@@ -4,6 +4,7 @@ import (
 	"encoding/json"
 	"fmt"
 	"math/big"
+	"sort"
 	"strconv"
 	"strings"
 
@@ -71,6 +72,29 @@ func (c powCfg) specPrescribed(chain []powBlk, parent int, height int64) (bits u
 // the parent, as the plugin does; 0: the parent) and the clamp factor (4; 0 = no clamp) as parameters.  Only
 // (1, 4) is the rule; the other settings give the generator plausible-but-wrong target bits to offer.
 func (c powCfg) prescribedWith(chain []powBlk, parent int, height int64, back int, clamp int64) (bits uint32, ok bool) {
+	r := theRule
+	r.back = back
+	if clamp > 0 {
+		r.loThr, r.loTo, r.hiThr, r.hiTo = [2]int64{1, clamp}, [2]int64{1, clamp}, [2]int64{clamp, 1}, [2]int64{clamp, 1}
+	} else {
+		r.loTo, r.hiTo = [2]int64{}, [2]int64{}
+	}
+	return c.prescribedBy(r, chain, parent, height)
+}
+
+// retargetRule: the retarget rule with its constants as parameters.  theRule is the rule; every other setting is a
+// plausible wrong rule (used to search for a target a defective implementation accepts instead).
+type retargetRule struct {
+	back         int      // the ancestor whose bits are inherited and whose timestamp ends the window: 1 = the block before the parent
+	farShift     int      // the window start moved by that many blocks
+	loThr, hiThr [2]int64 // clamp thresholds as fractions num/den of the expected span
+	loTo, hiTo   [2]int64 // what the span is set to beyond a threshold; {0,0}: that side is not clamped
+}
+
+var theRule = retargetRule{back: 1, loThr: [2]int64{1, 4}, loTo: [2]int64{1, 4}, hiThr: [2]int64{4, 1}, hiTo: [2]int64{4, 1}}
+
+func (c powCfg) prescribedBy(r retargetRule, chain []powBlk, parent int, height int64) (bits uint32, ok bool) {
+	back := r.back
 	if c.G <= 0 {
 		return 0, false
 	}
@@ -87,19 +111,18 @@ func (c powCfg) prescribedWith(chain []powBlk, parent int, height int64, back in
 	if height%c.G != 0 {
 		return uint32(pre.bits), true
 	}
-	far := parent - back - int(c.G-1)
-	if far < 0 {
+	far := parent - back - int(c.G-1) + r.farShift
+	if far < 0 || far >= len(chain) {
 		return c.D, true
 	}
 	expected := c.E * (c.G - 1)
 	actual := (pre.ts - chain[far].ts) / 1000000000
-	if clamp > 0 {
-		if actual < expected/clamp {
-			actual = expected / clamp
-		}
-		if actual > expected*clamp {
-			actual = expected * clamp
-		}
+	frac := func(f [2]int64) int64 { return expected * f[0] / f[1] }
+	if r.loTo[1] != 0 && actual < frac(r.loThr) {
+		actual = frac(r.loTo)
+	}
+	if r.hiTo[1] != 0 && actual > frac(r.hiThr) {
+		actual = frac(r.hiTo)
 	}
 	if actual < 0 {
 		return 0, false
@@ -132,24 +155,122 @@ func (c powCfg) prescribedWith(chain []powBlk, parent int, height int64, back in
 	return nb, true
 }
 
-// pow <D> <G> <E> <M> <n> (<bits|x> <ts>){n} <height> <parent> <bits|x> <ts> <hash> <idok> <key> <sig>
+// wrongRules: the family of near-miss retarget rules searched when the implementation refuses the prescribed target
+func wrongRules() []retargetRule {
+	var res []retargetRule
+	los := [][2]int64{{1, 4}, {1, 2}, {1, 8}, {4, 1}, {0, 0}}
+	his := [][2]int64{{4, 1}, {2, 1}, {8, 1}, {1, 4}, {0, 0}}
+	for back := 0; back <= 2; back++ {
+		for shift := -1; shift <= 1; shift++ {
+			for _, lo := range los {
+				for _, hi := range his {
+					r := retargetRule{back: back, farShift: shift, loThr: [2]int64{1, 4}, loTo: lo, hiThr: [2]int64{4, 1}, hiTo: hi}
+					res = append(res, r)
+					if lo[1] != 0 && hi[1] != 0 && lo[0] < lo[1] && hi[0] > hi[1] {
+						r.loThr, r.hiThr = lo, hi // another clamp window altogether
+						res = append(res, r)
+					}
+				}
+			}
+		}
+	}
+	// the smallest deviations from the rule first, so that a hit names the simplest explanation
+	dev := func(r retargetRule) int {
+		n := 0
+		for _, d := range []bool{r.back != theRule.back, r.farShift != 0, r.loThr != theRule.loThr, r.hiThr != theRule.hiThr, r.loTo != theRule.loTo, r.hiTo != theRule.hiTo} {
+			if d {
+				n++
+			}
+		}
+		return n
+	}
+	sort.SliceStable(res, func(i, j int) bool { return dev(res[i]) < dev(res[j]) })
+	return res
+}
+
+// legalTarget: may a block declare these bits at all (bitcoin style: sign bit clear, not harder than the configured
+// floor, and a size byte of at most 32 - the plugin's SetCompact reports overflow for every larger size, a documented
+// quirk kept out of the probes; legacy style: at most 256 leading zero bits)
+func (c powCfg) legalTarget(bits uint32) bool {
+	if !c.bitcoin() {
+		return bits <= 256
+	}
+	return bits&0x800000 == 0 && bits>>24 <= 32 && specDecode(bits).Cmp(specDecode(c.M)) >= 0 && specDecode(bits).Sign() > 0
+}
+
+// pow  <D> <G> <E> <M> <n> (<bits|x> <ts>){n} <height> <parent> <bits|x> <ts> <hash> <idok> <key> <sig>
+// powf <D> <G> <E> <M> <n> (<bits|x> <ts> <par>){n} <main> <height> <parent> <bits|x> <ts> <hash> <idok> <key> <sig>
 // key: p proposer's own key / x another account's key / b not a key;  sig: v valid / w over other data / f other private key
+//
+// powf: the ledger is a block TREE.  Block i names block par (< i; -1: a pre-hash the ledger does not know) as its
+// parent and sits one above it (height 0 without parent); <main> is the index of the tip of the main chain: the
+// ledger answers QueryBlockByHeight / GetTipBlock from the ancestors of that block, QueryBlock by id from all blocks.
+// `pow` is the special case par = i-1, main = n-1.
 func execPow(line string, w []string) string {
+	forked := w[0] == "powf"
+	per := 2
+	if forked {
+		per = 3
+	}
 	if len(w) < 6 {
 		return "bad-op"
 	}
 	c := powCfg{D: uint32(parseBits(w[1])), G: atoi(w[2]), E: atoi(w[3]), M: uint32(parseBits(w[4]))}
 	n := int(atoi(w[5]))
-	if n < 1 || len(w) != 6+2*n+8 {
+	tail := 8
+	if forked {
+		tail = 9
+	}
+	if n < 1 || n > 250 || len(w) != 6+per*n+tail {
 		return "bad-op"
 	}
-	chain := make([]powBlk, n)
-	l := newStubLedger()
+	all := make([]powBlk, n)
+	pars := make([]int, n)
+	blks := make([]*blk, n)
 	for i := 0; i < n; i++ {
-		chain[i] = powBlk{bits: parseBits(w[6+2*i]), ts: atoi(w[7+2*i])}
-		l.put(&blk{proposer: acct(0).Address, height: int64(i), id: []byte{byte(i), 0xF}, pre: []byte{byte(i - 1), 0xF}, storage: powStorage(chain[i].bits), ts: chain[i].ts})
+		all[i] = powBlk{bits: parseBits(w[6+per*i]), ts: atoi(w[7+per*i])}
+		pars[i] = i - 1
+		if forked {
+			pars[i] = int(atoi(w[8+per*i]))
+			if pars[i] < -1 || pars[i] >= i {
+				return "bad-op"
+			}
+		}
+		b := &blk{proposer: acct(0).Address, id: []byte{byte(i), 0xF}, pre: []byte{0xEE, byte(i), 0xF0}, storage: powStorage(all[i].bits), ts: all[i].ts}
+		if pars[i] >= 0 {
+			b.pre = blks[pars[i]].id
+			b.height = blks[pars[i]].height + 1
+		}
+		blks[i] = b
 	}
-	r := w[6+2*n:]
+	r := w[6+per*n:]
+	mainTip := n - 1
+	if forked {
+		mainTip = int(atoi(r[0]))
+		r = r[1:]
+		if mainTip < 0 || mainTip >= n {
+			return "bad-op"
+		}
+	}
+	// pathTo(i): the line of ancestors of block i, oldest first
+	pathTo := func(i int) []int {
+		var p []int
+		for ; i >= 0; i = pars[i] {
+			p = append([]int{i}, p...)
+		}
+		return p
+	}
+	l := newStubLedger()
+	onMain := map[int]bool{}
+	for _, i := range pathTo(mainTip) {
+		l.put(blks[i])
+		onMain[i] = true
+	}
+	for i := range blks {
+		if !onMain[i] {
+			l.putSide(blks[i])
+		}
+	}
 	height, parent, cbits, cts := atoi(r[0]), int(atoi(r[1])), parseBits(r[2]), atoi(r[3])
 	hash, okh := new(big.Int).SetString(r[4], 10)
 	if !okh || hash.Sign() < 0 || hash.Cmp(two256) >= 0 {
@@ -171,8 +292,15 @@ func execPow(line string, w []string) string {
 	}
 	const miner, third = 1, 2
 	b := &blk{proposer: acct(miner).Address, height: height, id: id, storage: powStorage(cbits), ts: cts}
+	// the candidate's own history: what the property lets the target depend on
+	var chain []powBlk
+	own := -1
 	if parent >= 0 && parent < n {
-		b.pre = l.chain[parent].id
+		b.pre = blks[parent].id
+		for _, i := range pathTo(parent) {
+			chain = append(chain, all[i])
+		}
+		own = len(chain) - 1
 	} else {
 		b.pre = []byte{0xEE, 0xEE}
 	}
@@ -211,11 +339,11 @@ func execPow(line string, w []string) string {
 		// ones, timestamp not before the parent's, id recomputes, signed by the proposer
 		var why []string
 		key := ""
-		want, has := c.specPrescribed(chain, parent, height)
+		want, has := c.specPrescribed(chain, own, height)
 		switch {
 		case cbits < 0 || !has || uint32(cbits) != want:
 			key = "pow-accept-wrong-target"
-			why = append(why, fmt.Sprintf("target bits %s, prescribed %d (defined=%v)", bitsTok(cbits), want, has))
+			why = append(why, fmt.Sprintf("target bits %s, the block's own ancestors prescribe %d (defined=%v)", bitsTok(cbits), want, has))
 		case hash.Cmp(c.specTarget(want)) > 0:
 			key = "pow-accept-hash-above-target"
 			why = append(why, fmt.Sprintf("hash %s above target %s", hash, c.specTarget(want)))
@@ -227,9 +355,9 @@ func execPow(line string, w []string) string {
 			key = "pow-accept-unknown-parent"
 			why = append(why, "parent not in the ledger")
 		}
-		if key == "" && cts < chain[parent].ts {
+		if key == "" && cts < all[parent].ts {
 			key = "pow-accept-timestamp-before-parent"
-			why = append(why, fmt.Sprintf("timestamp %d before the parent's %d", cts, chain[parent].ts))
+			why = append(why, fmt.Sprintf("timestamp %d before the parent's %d", cts, all[parent].ts))
 		}
 		if key == "" && r[5] != "1" {
 			key = "pow-accept-bad-blockid"
@@ -241,6 +369,97 @@ func execPow(line string, w []string) string {
 		}
 		if key != "" {
 			out.Violate(xvlib.Violation{Key: key, What: "pow CheckMinerMatch accepted a block: " + strings.Join(why, "; "), Ops: []string{line}, Impl: []string{"accept"}})
+		}
+	}
+	// probes around the prescribed target: on the same ledger, an otherwise flawless block (parent's timestamp, id
+	// recomputes, signed by its proposer) declaring the bits its own ancestors prescribe is presented with a hash
+	// one below, at, and one above the target those bits stand for.  The first two must pass, the third must not.
+	if want, has := c.specPrescribed(chain, own, height); has && own >= 0 && c.legalTarget(want) {
+		prefix := strings.Join(w[:len(w)-8], " ")
+		pts := all[parent].ts // the probes carry their parent's timestamp: 'not before its parent's'
+		probe := func(bits uint32, hash *big.Int) (acc bool, pl string) {
+			defer func() {
+				if recover() != nil {
+					acc = false
+				}
+			}()
+			pid := hash.Bytes()
+			if len(pid) == 0 {
+				pid = []byte{0}
+			}
+			sg, err := xvlib.Crypto().SignECDSA(acct(miner).Pri, pid)
+			if err != nil {
+				panic(err)
+			}
+			pb := &blk{proposer: acct(miner).Address, height: height, id: pid, pre: blks[parent].id, storage: powStorage(int64(bits)), ts: pts,
+				pub: acct(miner).PubJSON, sign: sg}
+			pl = fmt.Sprintf("%s %d %d %d %d %s 1 p v", prefix, height, parent, bits, pts, hash)
+			acc, _ = inst.CheckMinerMatch(bctx, pb)
+			return
+		}
+		T := c.specTarget(want)
+		if T.Cmp(two256) >= 0 {
+			T = new(big.Int).Sub(two256, one)
+		}
+		accT, lineT := probe(want, T)
+		accLo := accT
+		if T.Sign() > 0 {
+			accLo, _ = probe(want, new(big.Int).Sub(T, one))
+		}
+		if above := new(big.Int).Add(T, one); above.Cmp(two256) < 0 && above.Cmp(c.specTarget(want)) > 0 {
+			if accHi, lineHi := probe(want, above); accHi {
+				out.Violate(xvlib.Violation{Key: "pow-accepts-above-target", What: fmt.Sprintf("pow CheckMinerMatch accepted a flawless block whose hash %s is one above the target %s its own ancestors prescribe (bits %d)", above, T, want),
+					Ops: []string{lineHi}, Impl: []string{"accept"}})
+			}
+		}
+		switch {
+		case accT:
+		case accLo:
+			out.Violate(xvlib.Violation{Key: "pow-rejects-at-target", What: fmt.Sprintf("pow CheckMinerMatch refused a flawless block whose hash equals the target %s its own ancestors prescribe (bits %d) and accepts one below: 'not above the target' includes the target", T, want),
+				Ops: []string{lineT}, Impl: []string{"reject"}})
+		default:
+			// is it the timestamp?  the same block stamped after every block of the ledger
+			for _, b := range all {
+				if b.ts >= pts {
+					pts = b.ts + 1000000000
+				}
+			}
+			accLate, _ := probe(want, T)
+			pts = all[parent].ts
+			if accLate {
+				out.Violate(xvlib.Violation{Key: "pow-rejects-timestamp-of-parent", What: fmt.Sprintf("pow CheckMinerMatch refused a flawless block (prescribed bits %d, hash = target) carrying its parent's timestamp %d and accepts it with a timestamp after every block of the ledger: 'not before its parent's' is judged against another block", want, pts),
+					Ops: []string{lineT}, Impl: []string{"reject"}})
+				break
+			}
+			// the implementation demands another target: find it among the near-miss rules and exhibit the block it accepts instead
+			found := false
+			seen := map[uint32]bool{want: true}
+			for _, rule := range wrongRules() {
+				alt, okAlt := c.prescribedBy(rule, chain, own, height)
+				if !okAlt || seen[alt] || (!c.bitcoin() && alt > 256) {
+					continue
+				}
+				seen[alt] = true
+				TA := c.specTarget(alt)
+				if TA.Cmp(two256) >= 0 {
+					TA = new(big.Int).Sub(two256, one)
+				}
+				if accA, lineA := probe(alt, TA); accA {
+					rel := "ABOVE"
+					if TA.Cmp(T) <= 0 {
+						rel = "not above"
+					}
+					out.Violate(xvlib.Violation{Key: "pow-accept-wrong-target", What: fmt.Sprintf("pow CheckMinerMatch accepted a block declaring target bits %d (hash %s, %s the prescribed target) where its own ancestors prescribe bits %d (target %s), and refuses the block that declares and meets the prescribed target; the accepted bits are what the retarget rule gives with %+v",
+						alt, TA, rel, want, T, rule), Ops: []string{lineA}, Impl: []string{"accept"}})
+					found = true
+					break
+				}
+			}
+			what := fmt.Sprintf("pow CheckMinerMatch refused a flawless block that declares the target bits %d its own ancestors prescribe and whose hash %s equals that target (one below is refused too): the implementation prescribes another target", want, T)
+			if !found {
+				what += "; none of the near-miss retarget rules tried reproduces it"
+			}
+			out.Violate(xvlib.Violation{Key: "pow-rejects-prescribed-target", What: what, Ops: []string{lineT}, Impl: []string{"reject"}})
 		}
 	}
 	return verdict(ok)
